@@ -872,9 +872,45 @@ def owned(packfn):
         for i in range(min(len(keep), 16)):
             first[i] ^= 0xFF
     second = packfn()
-    if bytes(second) == keep:
-        return second
-    return bytearray(b"\xee" + bytes(second))       # differs from the expectation: the mismatch names the octets
+    if bytes(second) != keep:
+        return bytearray(b"\xee" + bytes(second))       # differs from the expectation: the mismatch names the octets
+    # retention: what pack() returned belongs to the caller for good - results are kept for the next 700 pack() calls of
+    # the process (a transmit queue) and must still hold what they held (no pool of output buffers that comes round again)
+    _KEPT.append((second, keep))
+    if len(_KEPT) > 700:
+        old, was = _KEPT.popleft()
+        if bytes(old) != was:
+            _KEPT.clear()
+            return bytearray(b"\xee\xee a buffer returned ~700 pack() calls ago was overwritten: " + bytes(old)[:40])
+    return second
+
+
+import collections as _collections
+_KEPT = _collections.deque()
+
+
+def crc32_twin(data):
+    """Another octet string of the same length with the same CRC-32 (five adjacent octets XORed with a multiple of the CRC-32
+    polynomial), or None if data is shorter than five octets.  Used as the EARLIER content of an object: a 'did it change?'
+    shortcut built on a checksum of the content must not mistake the two for each other."""
+    data = bytes(data)
+    if len(data) < 5:
+        return None
+    import zlib
+    pat = bytes([0x41, 0x06, 0x71, 0xDB, 0x01])
+    at = len(data) // 2 - 2 if len(data) > 5 else 0
+    out = bytearray(data)
+    for i in range(5):
+        out[at + i] ^= pat[i]
+    if zlib.crc32(bytes(out)) != zlib.crc32(data):
+        # bit order of the pattern: try its bit-reversed form
+        out = bytearray(data)
+        rp = bytes(int(f"{b:08b}"[::-1], 2) for b in pat)
+        for i in range(5):
+            out[at + i] ^= rp[i]
+        if zlib.crc32(bytes(out)) != zlib.crc32(data):
+            return None
+    return bytes(out)
 
 
 _LIVE = []
